@@ -35,6 +35,8 @@ Clause → theorem
   LogNormal fit with floc=0 (closed form) is exactly equivariant        lognormal_closed_form_equivariant
   Normal / LogNormal closed forms ARE the arg-max (≥ every admissible   normal_mle_is_argmax, normal_mle_strict,
   parameter vector, hence ≥ start and ≥ truth), strictly in μ           lognormal_mle_is_argmax, lognormal_mle_strict
+  … with ONE PARAMETER FIXED (scipy's floc / fscale / f0 branches):     normal_fixed_loc_is_argmax, normal_fixed_scale_is_argmax,
+  the returned free parameter is the arg-max of the constrained problem lognormal_fixed_mu_is_argmax, lognormal_fixed_sigma_is_argmax
   LogNormalNormFit._fit_mle is a moment estimator …                     normfit_is_moment_estimator
   … and NOT an arg-max of the likelihood (section 4 #19)                normfit_not_argmax  (sample [1, 4])
   the two clauses as far as provable                                    fit_does_not_lose_likelihood_partial,
@@ -649,6 +651,105 @@ theorem lognormal_mle_strict (l2pi : ℝ) (xs : List ℝ) (hx : ∀ x ∈ xs, 0 
   rw [sumLogPdf_lognormal, sumLogPdf_lognormal]
   have := normal_mle_strict l2pi (xs.map Real.log) m s h hs mu sigma hsig hmu
   linarith
+
+/-! ### P2b  the closed forms with ONE PARAMETER FIXED are the arg-max of the constrained problem
+
+`NormalDistribution(f_mu=…)/(f_sigma=…)` and `LogNormalDistribution(f_mu=…)/(f_sigma=…)` reach scipy's `floc` /
+`fscale` / `f0` branches of `norm.fit` / `lognorm.fit(floc=0)` (models `normalFitFixedLoc`, `normalFitFixedScale`,
+`lognormalFitFixedMu`, `lognormalFitFixedSigma`, tied to the real fits by correspondence (B) of harness/c12.py). -/
+
+theorem normalFitFixedLoc_spec (xs : List ℝ) (mu0 s : ℝ) (h : normalFitFixedLoc Real.sqrt mu0 xs = some s) :
+    xs ≠ [] ∧ s * s = ss mu0 xs / xs.length := by
+  cases xs with
+  | nil => simp [normalFitFixedLoc] at h
+  | cons x xs =>
+    simp only [normalFitFixedLoc, Option.some.injEq] at h
+    refine ⟨by simp, ?_⟩
+    have hnn : 0 ≤ meanSqDev mu0 (x :: xs) := by
+      unfold meanSqDev
+      rw [meanL]
+      exact div_nonneg (ss_nonneg _ _) (by rw [cnt_eq_length]; positivity)
+    rw [← h, Real.mul_self_sqrt hnn]
+    unfold meanSqDev meanL ss
+    rw [cnt_map, cnt_eq_length]
+
+/-- **fixed location**: with `μ` fixed at `μ₀`, the returned `σ̂ = sqrt(mean (x-μ₀)²)` has at least the
+log-likelihood of every `σ > 0` at the same `μ₀` (start values and generating `σ` included) -/
+theorem normal_fixed_loc_is_argmax (l2pi : ℝ) (xs : List ℝ) (mu0 s : ℝ)
+    (h : normalFitFixedLoc Real.sqrt mu0 xs = some s) (hs : 0 < s) (sigma : ℝ) (hsig : 0 < sigma) :
+    sumLogPdf (normalLogPdf Real.log l2pi mu0 sigma) xs ≤
+      sumLogPdf (normalLogPdf Real.log l2pi mu0 s) xs := by
+  obtain ⟨hne, hss⟩ := normalFitFixedLoc_spec xs mu0 s h
+  have hn : 0 < (xs.length : ℝ) := by exact_mod_cast List.length_pos_iff.mpr hne
+  have hS : ss mu0 xs = xs.length * (s * s) := by rw [hss]; field_simp
+  rw [sumLogPdf_normal, sumLogPdf_normal, hS]
+  have := (normal_core xs.length s sigma 0 hn hs hsig le_rfl).1
+  simp only [mul_zero, add_zero] at this
+  linarith
+
+/-- **fixed scale**: with `σ` fixed at any `σ₀ > 0`, the returned `μ̂ = mean` has at least the log-likelihood of
+every `μ` at the same `σ₀` -/
+theorem normal_fixed_scale_is_argmax (l2pi : ℝ) (xs : List ℝ) (m : ℝ)
+    (h : normalFitFixedScale xs = some m) (sigma0 : ℝ) (hsig : 0 < sigma0) (mu : ℝ) :
+    sumLogPdf (normalLogPdf Real.log l2pi mu sigma0) xs ≤
+      sumLogPdf (normalLogPdf Real.log l2pi m sigma0) xs := by
+  cases xs with
+  | nil => simp [normalFitFixedScale] at h
+  | cons x xs =>
+    simp only [normalFitFixedScale, Option.some.injEq] at h
+    subst h
+    rw [sumLogPdf_normal, sumLogPdf_normal, ss_mean mu (x :: xs) (by simp), add_div, add_div]
+    have : 0 ≤ ((x :: xs).length : ℝ) * ((meanL (x :: xs) - mu) * (meanL (x :: xs) - mu)) /
+        (sigma0 * sigma0) / 2 :=
+      div_nonneg (div_nonneg (mul_nonneg (Nat.cast_nonneg _) (mul_self_nonneg _)) (mul_pos hsig hsig).le)
+        (by norm_num)
+    linarith
+
+/-- the log-normal fixed-`μ` fit is the normal fixed-location fit of the logarithms -/
+theorem lognormalFitFixedMu_eq (xs : List ℝ) (hx : ∀ x ∈ xs, 0 < x) (m : ℝ) :
+    lognormalFitFixedMu Real.log Real.exp Real.sqrt m xs = normalFitFixedLoc Real.sqrt m (xs.map Real.log) := by
+  cases xs with
+  | nil => rfl
+  | cons x xs =>
+    have hall : ((x :: xs).all fun x => decide ((0 : ℝ) < x)) = true := by
+      rw [List.all_eq_true]; intro y hy; exact decide_eq_true (hx y hy)
+    simp only [lognormalFitFixedMu, hall, if_true, Real.log_exp, List.map_cons, normalFitFixedLoc]
+
+theorem lognormalFitFixedSigma_eq (xs : List ℝ) (hx : ∀ x ∈ xs, 0 < x) :
+    lognormalFitFixedSigma Real.log Real.exp xs = normalFitFixedScale (xs.map Real.log) := by
+  cases xs with
+  | nil => rfl
+  | cons x xs =>
+    have hall : ((x :: xs).all fun x => decide ((0 : ℝ) < x)) = true := by
+      rw [List.all_eq_true]; intro y hy; exact decide_eq_true (hx y hy)
+    simp only [lognormalFitFixedSigma, hall, if_true, Real.log_exp, List.map_cons, normalFitFixedScale]
+
+/-- `LogNormalDistribution(f_mu=μ₀).fit`: the returned `σ̂` is the arg-max over `σ > 0` at `μ₀` -/
+theorem lognormal_fixed_mu_is_argmax (l2pi : ℝ) (xs : List ℝ) (hx : ∀ x ∈ xs, 0 < x) (mu0 s : ℝ)
+    (h : lognormalFitFixedMu Real.log Real.exp Real.sqrt mu0 xs = some s) (hs : 0 < s)
+    (sigma : ℝ) (hsig : 0 < sigma) :
+    sumLogPdf (lognormalLogPdf Real.log l2pi mu0 sigma) xs ≤
+      sumLogPdf (lognormalLogPdf Real.log l2pi mu0 s) xs := by
+  rw [lognormalFitFixedMu_eq xs hx] at h
+  rw [sumLogPdf_lognormal, sumLogPdf_lognormal]
+  have := normal_fixed_loc_is_argmax l2pi (xs.map Real.log) mu0 s h hs sigma hsig
+  linarith
+
+/-- `LogNormalDistribution(f_sigma=σ₀).fit`: the returned `μ̂ = mean(log x)` is the arg-max over `μ` at `σ₀` -/
+theorem lognormal_fixed_sigma_is_argmax (l2pi : ℝ) (xs : List ℝ) (hx : ∀ x ∈ xs, 0 < x) (m : ℝ)
+    (h : lognormalFitFixedSigma Real.log Real.exp xs = some m) (sigma0 : ℝ) (hsig : 0 < sigma0) (mu : ℝ) :
+    sumLogPdf (lognormalLogPdf Real.log l2pi mu sigma0) xs ≤
+      sumLogPdf (lognormalLogPdf Real.log l2pi m sigma0) xs := by
+  rw [lognormalFitFixedSigma_eq xs hx] at h
+  rw [sumLogPdf_lognormal, sumLogPdf_lognormal]
+  have := normal_fixed_scale_is_argmax l2pi (xs.map Real.log) m h sigma0 hsig mu
+  linarith
+
+/-- non-vacuity: the fixed-location fit of `[1, 3]` at `μ₀ = 1` is `σ̂ = sqrt 2 > 0`, the fixed-scale fit is `2` -/
+example : normalFitFixedLoc Real.sqrt 1 [1, 3] = some (Real.sqrt 2) ∧ normalFitFixedScale ([1, 3] : List ℝ) = some 2 := by
+  have hv : meanSqDev 1 ([1, 3] : List ℝ) = 2 := by simp [meanSqDev, meanL, cnt]; norm_num
+  have hm : meanL ([1, 3] : List ℝ) = 2 := by simp [meanL, cnt]; norm_num
+  exact ⟨by simp only [normalFitFixedLoc, hv], by simp only [normalFitFixedScale, hm]⟩
 
 /-! ### `LogNormalNormFitDistribution._fit_mle` is a moment estimator, not an arg-max (section 4 #19) -/
 
